@@ -43,3 +43,33 @@ Theorem c06_served_is_never_an_access_error : forall st rpc k,
   snd (serve st rpc k) <> UNAUTHENTICATED /\ snd (serve st rpc k) <> PERMISSION_DENIED.
 Proof. exact served_is_never_an_access_error. Qed.
 Print Assumptions c06_served_is_never_an_access_error.
+
+(* ---------- the VISS socket (Model/Viss.v; TokOpen: the server runs with authorization disabled) ---------- *)
+From KD Require Model.Perm Model.Broker Model.BrokerRun Model.Api Model.ApiRun Model.Viss Proofs.Viss.
+
+(* authorization enabled: no token / a token that does not verify opens nothing and changes nothing *)
+Theorem c06_viss_token_required : forall st path,
+  Viss.viss_get st Viss.TokNone path = inr Viss.VTokenMissing /\ Viss.viss_get st Viss.TokBad path = inr Viss.VTokenInvalid
+  /\ (forall x, Viss.viss_set st Viss.TokNone path x = (st, Viss.SetErr Viss.VTokenMissing))
+  /\ (forall x, Viss.viss_set st Viss.TokBad path x = (st, Viss.SetErr Viss.VTokenInvalid))
+  /\ Viss.viss_subscribe st Viss.TokNone path = (st, inr Viss.VTokenMissing)
+  /\ Viss.viss_subscribe st Viss.TokBad path = (st, inr Viss.VTokenInvalid).
+Proof. exact Proofs.Viss.viss_token_required. Qed.
+Print Assumptions c06_viss_token_required.
+
+(* authorization disabled: whatever the request carries, it is served with full rights *)
+Theorem c06_viss_disabled_get : forall st path d,
+  Api.too_long path = false ->
+  (Viss.viss_get st Viss.TokOpen path = inl d <-> Api.v2_get_value st Perm.allow_all (Api.SigPath path) = Api.RValue d).
+Proof. exact Proofs.Viss.viss_open_get_is_v2_get. Qed.
+Print Assumptions c06_viss_disabled_get.
+
+Theorem c06_viss_disabled_get_refusal : forall st path e,
+  Viss.viss_get st Viss.TokOpen path = inr e -> e = Viss.VNotFound.
+Proof. exact Proofs.Viss.viss_open_get_refusal. Qed.
+Print Assumptions c06_viss_disabled_get_refusal.
+
+Theorem c06_viss_disabled_subscribe : forall st path st' e,
+  Viss.viss_subscribe st Viss.TokOpen path = (st', inr e) -> e <> Viss.VTokenMissing /\ e <> Viss.VTokenInvalid.
+Proof. exact Proofs.Viss.viss_open_subscribe_not_token_error. Qed.
+Print Assumptions c06_viss_disabled_subscribe.
